@@ -761,6 +761,19 @@ func (node *Node) CleanupBlock(ctx context.Context, txids []*bitcoin.Hash32) err
 	return nil
 }
 
+// removeFromTrackers removes a tx that has been received or confirmed from the tx trackers of all
+// nodes so that none of them requests it again.
+func (node *Node) removeFromTrackers(ctx context.Context, txid bitcoin.Hash32) {
+	node.txTracker.Remove(ctx, txid)
+
+	node.untrustedLock.Lock()
+	defer node.untrustedLock.Unlock()
+
+	for _, untrusted := range node.untrustedNodes {
+		untrusted.txTracker.Remove(ctx, txid)
+	}
+}
+
 func (node *Node) connect(ctx context.Context) error {
 	conn, err := net.Dial("tcp", node.config.NodeAddress)
 	if err != nil {
